@@ -287,11 +287,11 @@ def splice_body(body: str, spec: FnSpec, n_loops: int, key: str) -> str:
             raise Undecided(f"{key}: loop marker {k} lost")
         rep = ("\n" + inv + "\n{") if inv.strip() else "{"
         body = body[:m.start()] + rep + body[m.end():]
-        tag = "__vx_iter!(%d," % k
-        i = body.find(tag)
+        mt = re.search(r"__vx_iter!\(\s*%d\s*," % k, body)   # prettyplease may break the line after `(`
+        i = mt.start() if mt else -1
         if i >= 0:
             j = find_matching(body, i + len("__vx_iter!"))
-            inner = body[i + len(tag):j].strip()
+            inner = body[mt.end():j].strip()
             nm = spec.iters.get(k) if spec else None
             body = body[:i] + (f"{nm}: {inner}" if nm else inner) + body[j + 1:]
     if spec:
